@@ -1,4 +1,6 @@
-use super::swift_utils::{parse_amount, parse_currency, parse_date_yymmdd, parse_exact_length};
+use super::swift_utils::{
+    ensure_ascii, parse_amount, parse_currency, parse_date_yymmdd, parse_exact_length,
+};
 use crate::errors::ParseError;
 use crate::traits::SwiftField;
 use chrono::NaiveDate;
@@ -68,6 +70,8 @@ impl SwiftField for Field60F {
     where
         Self: Sized,
     {
+        ensure_ascii(input, "Field 60F")?;
+
         // Format: 1!a6!n3!a15d - DebitCredit + Date + Currency + Amount
         if input.len() < 10 {
             return Err(ParseError::InvalidFormat {
@@ -119,6 +123,8 @@ impl SwiftField for Field60M {
     where
         Self: Sized,
     {
+        ensure_ascii(input, "Field 60M")?;
+
         // Format: 1!a6!n3!a15d - DebitCredit + Date + Currency + Amount
         if input.len() < 10 {
             return Err(ParseError::InvalidFormat {
